@@ -49,12 +49,19 @@ QueueOK(q, sc, tp) ==
 Pools == << "S", "O", "I" >>
 VerdictOK(v, tn) == v \in {"ok", "none", "err"} \/ (tn /\ v = "wrong")
 TreesOK(tr, sc, tn) ==
-    /\ tr.S.ck = tr.O.ck /\ tr.O.ck = tr.I.ck                                       \* AlignedCheckpoints
-    /\ \A i \in 1..3 : LET t == tr[Pools[i]]
-                        IN  /\ \A j \in DOMAIN t.roots : VerdictOK(t.roots[j][2], tn)   \* RootLaw
-                            /\ \A j \in DOMAIN t.wit : VerdictOK(t.wit[j][3], tn) /\ t.wit[j][4] = "pos-ok"   \* WitnessLaw
-                            /\ \A j \in DOMAIN t.ck : sc # {} /\ t.ck[j] <= Max(sc)     \* no checkpoint above everything scanned
-                            /\ \A j \in DOMAIN t.ret : t.ret[j] \in SeqToSet(t.ck) \/ t.ret[j] > Max(sc \cup {0})
+    /\ LET cs == [i \in 1..3 |-> SeqToSet(tr[Pools[i]].ck)]                          \* AlignedCheckpoints:
+           ne == { i \in 1..3 : cs[i] # {} }                                        \* above the newest of the pools' oldest
+       IN  ne # {} => /\ ne = 1..3                                                  \* checkpoints (pruning of the oldest ones lags
+                      /\ LET lo == Max({ Min(cs[i]) : i \in 1..3 })                  \* per pool) all pools hold the same heights
+                         IN  \A i, j \in 1..3 : { h \in cs[i] : h >= lo } = { h \in cs[j] : h >= lo }
+    /\ LET mx == IF sc = {} THEN -1 ELSE Max(sc)
+       IN  \A i \in 1..3 :
+             LET t == tr[Pools[i]]
+                 cks == SeqToSet(t.ck)
+             IN  /\ \A j \in DOMAIN t.roots : VerdictOK(t.roots[j][2], tn)                            \* RootLaw
+                 /\ \A j \in DOMAIN t.wit : VerdictOK(t.wit[j][3], tn) /\ t.wit[j][4] = "pos-ok"      \* WitnessLaw
+                 /\ \A h \in cks : h <= mx                           \* no checkpoint above everything scanned
+                 /\ \A j \in DOMAIN t.ret : t.ret[j] \in cks \/ t.ret[j] > mx
 
 PostAgrees(post) ==
     \/ ~post.chk
@@ -99,7 +106,8 @@ TScan == /\ IsEvent("scan")
 
 TTrunc == /\ IsEvent("trunc")
           /\ \/ /\ Rec[l].res = "ok" /\ Truncate(Rec[l].req, Rec[l].to, Rec[l].fork)
-                /\ (IOEnv.CHECK_TREES = "1" /\ Rec[l].post.chk) =>        \* TruncateLaw: nothing survives above the rewind height
+                /\ (IOEnv.CHECK_TREES = "1") => Rec[l].to \in scanned     \* TruncateLaw: the wallet settles on a scanned height
+                /\ (IOEnv.CHECK_TREES = "1" /\ Rec[l].post.chk) =>        \* ... and nothing survives above it
                       \A j \in DOMAIN Rec[l].post.trees.S.ck : Rec[l].post.trees.S.ck[j] <= Rec[l].to
              \/ Rec[l].res = "err" /\ UNCHANGED wvars              \* refusals are legitimate (relational)
           /\ PostOK(Rec[l].post)
